@@ -49,6 +49,10 @@ import OxiddModel.Dddmp.DriverHeader
 import OxiddModel.ArcSlab.Driver
 import OxiddModel.Dddmp.DriverImportThreshold
 import OxiddModel.Dddmp.DriverImportThresholdC
+import OxiddModel.Zbdd.DriverThresholdV
+import OxiddModel.Mtbdd.DriverThresholdV
+import OxiddModel.Tdd.DriverThresholdV
+import OxiddModel.Bcdd.DriverThresholdV
 
 open OxiddModel
 
@@ -116,7 +120,11 @@ def protos : List (String × Proto) := [
   ("dddmp-header", OxiddModel.Dddmp.Hdr.protoHeader),
   ("arcslab", OxiddModel.ArcSlab.proto),
   ("c14imp", OxiddModel.Dddmp.ImportThresholdDriver.proto),
-  ("c14impc", OxiddModel.Dddmp.ImportThresholdDriverC.proto)
+  ("c14impc", OxiddModel.Dddmp.ImportThresholdDriverC.proto),
+  ("c14tzv", OxiddModel.Zbdd.ThresholdDriverV.proto),
+  ("c14tmv", OxiddModel.Mtbdd.ThresholdDriverV.proto),
+  ("c14ttv", OxiddModel.Tdd.ThresholdDriverV.proto),
+  ("c14tcv", OxiddModel.Bcdd.ThresholdDriverV.proto)
 ]
 
 def main (args : List String) : IO UInt32 := do
